@@ -81,6 +81,9 @@ func plan(run *hx.Run) []Scenario {
 	// directed: a shorter-but-heavier branch overtakes a longer one (multi-block re-pointing, canonical entries deleted)
 	add(Scenario{Name: "dirA", TreeSeed: s + 501, Directed: true, OldLen: 8, NewLen: 7, Cache: "archive", OrderSeed: s, SetHeadTo: -1, Contracts: true})
 	add(Scenario{Name: "dirP", TreeSeed: s + 502, Directed: true, OldLen: 8, NewLen: 7, Cache: "pruning", OrderSeed: s, SetHeadTo: -1, StopMid: true})
+	// big state on a pruning node: Stop commits > IdealBatchSize of dirty nodes, i.e. ONE trie.Database.Commit spanning
+	// several batch flushes - every boundary between them is a crash point
+	add(Scenario{Name: "big", TreeSeed: s + 801, N: 6, Linear: true, Fresh: 200, Cache: "pruning", OrderSeed: s, SetHeadTo: -1})
 	// extended scope (informational): SetHead
 	add(Scenario{Name: "seth", TreeSeed: s + 601, N: 12, Branchy: 20, Cache: "archive", OrderSeed: s, SetHeadTo: 3})
 	// long pruning chain: periodic trie flushes above height 128, three tries at Stop
